@@ -113,10 +113,10 @@ def shards(tier, seed):
                     "n": 3000 if q else 110000, "sweep": 3 if q else 12})
     for i, nit in enumerate(("fraction", "float") if q else ("fraction", "fraction", "float")):
         out.append({"kind": "auto", "nit": nit, "name": f"auto-{nit}-{i}",
-                    "n": 900 if q else 45000, "npref": 110 if q else 5000})
+                    "n": 900 if q else 45000, "npref": 60 if q else 3000})
     for i, nit in enumerate(("fraction", "float") if q else ("fraction", "fraction", "float")):
         out.append({"kind": "preferred", "nit": nit, "name": f"preferred-{nit}-{i}",
-                    "n": 260 if q else 9000})
+                    "n": 150 if q else 6000})
     return out
 
 
@@ -501,6 +501,15 @@ class Monitor:
             return False, None
 
     def raise_shape(self, helper, units, errname):
+        if "reduced" in helper and errname == "DimensionalityError" and self.reg != "fraction":
+            # exponents exp/power are floats (Decimals) there: 4/3 - 1 = 0.33333333333333326
+            for a, b in self.o.mergeable_pairs(units):
+                da, db = self.o.info(a)[1], self.o.info(b)[1]
+                if da:
+                    k = next(iter(da))
+                    for r in (db[k] / da[k], da[k] / db[k]):
+                        if r.denominator & (r.denominator - 1):
+                            return "inexact-exponents:non-dyadic-dimension-ratio"
         if helper in ("to_compact",) and errname == "AssertionError":
             amb = [u for u in units if self.o.compact_reading(u) is None]
             if amb:
@@ -756,10 +765,10 @@ class Monitor:
                 got = None
             base = next(b for n_, _, b, _ in items if n_ == name)
             if got != (p2, base):
-                rec.violation("compact-renamed-to-other-unit",
-                              self.witness(x, units, result_units=units_desc(runits), new_name=nm,
-                                           model_reading=repr(got)),
-                              **self.fields("to_compact", "renamed-to-other-unit", x, units, input=inshape))
+                # prefix+unit spells a unit that is also defined on its own (milliarcsecond,
+                # kilometer_per_second): harmless as long as the value clause above held
+                rec.count("compact_new_name_is_also_a_defined_unit")
+                rec.observe("compact_new_names_also_defined", nm)
         if changed:
             rec.count("compact_prefix_changed")
             rec.observe("compact_prefixes_chosen", changed[0][2])
@@ -1000,8 +1009,7 @@ def run_auto(spec, rec, rng, pintload, pint, o, names):
     R = o.R
 
     def pref_list(ureg):
-        return [ureg.meter, ureg.kilogram, ureg.second, ureg.newton, ureg.pascal, ureg.watt,
-                ureg.ampere, ureg.kelvin]
+        return [ureg.meter, ureg.kilogram, ureg.second, ureg.newton, ureg.pascal, ureg.watt]
 
     configs = [("auto_reduce", dict(auto_reduce_dimensions=True), spec["n"]),
                ("auto_preferred", dict(autoconvert_to_preferred=True), spec["npref"]),
@@ -1060,13 +1068,18 @@ def run_auto(spec, rec, rng, pintload, pint, o, names):
                     exp = (N / X, R.vpow(fa, F(-1)), R.mscale(da, -1))
             except Exception as ex:  # noqa: BLE001
                 name = type(ex).__name__
-                if name in ("OverflowError", "ZeroDivisionError") and (mon.extreme(x, ua) or mon.extreme(y, ub)):
+                allu = dict(ua)
+                allu.update(ub)
+                floaty = regname != "fraction" or not (is_exact_mag(x) and is_exact_mag(y)) or \
+                    any(not o.info(n)[0].exact for n in allu)
+                if name in ("OverflowError", "ZeroDivisionError", "Overflow", "Underflow") and floaty:
                     rec.count("skipped_float_range")
                     continue
                 rec.violation("helper-raised",
                               {"a": mag_desc(x), "ua": units_desc(ua), "b": mag_desc(y), "ub": units_desc(ub),
                                "op": op, "error": name, "args": repr(ex.args)[:300]},
-                              helper=cname, clause="raised", registry=regname, error=name, op=op)
+                              helper=cname, clause="raised", registry=regname, error=name, op=op,
+                              shape=mon.raise_shape("ito_reduced_units", allu, name))
                 continue
             if not hasattr(r, "_units"):
                 rec.violation("arithmetic-result-not-a-quantity", {"op": op, "type": type(r).__name__},
@@ -1114,7 +1127,12 @@ def run_auto(spec, rec, rng, pintload, pint, o, names):
                     both.update(ub)
                 if len(runits) < len(both):
                     rec.count("auto_reduce_merges_observed")
-                mon.structure_reduced("auto_reduce", x, both, runits, op=op, config=cname)
+                if op == "rdivnum":
+                    # number / quantity goes through __rtruediv__, which is not wrapped by
+                    # ireduce_dimensions: nothing was applied, nothing to judge structurally
+                    rec.count("auto_reduce_not_applied_by_rtruediv")
+                else:
+                    mon.structure_reduced("auto_reduce", x, both, runits, op=op, config=cname)
             if i % 211 == 0:
                 rec.sample({"workload": cname, "registry": regname, "op": op, "a": mag_desc(x),
                             "ua": units_desc(ua), "b": mag_desc(y), "ub": units_desc(ub),
@@ -1153,7 +1171,7 @@ def run_preferred(spec, rec, rng, pintload, pint, o, names):
     U = ureg.Unit
     UC = ureg.UnitsContainer
     si = [ureg.meter, ureg.kilogram, ureg.second, ureg.newton, ureg.pascal, ureg.watt]
-    si2 = si + [ureg.ampere, ureg.kelvin, ureg.joule, ureg.volt]
+    si2 = si + [ureg.ampere]
     imp = [ureg.foot, ureg.slug, ureg.second, ureg.degree_Rankine, ureg.force_pound, ureg.watt]
     # quantities built from units whose dimensions the lists can express
     common = [n for n in names if set(o.info(n)[1]) <= {"[length]", "[mass]", "[time]", "[current]",
@@ -1191,7 +1209,7 @@ def run_preferred(spec, rec, rng, pintload, pint, o, names):
             else:
                 units = {n: rng.choice((-2, -1, 1, 2)) for n in rng.sample(common, rng.randint(1, 2))}
         else:
-            plist, pname = ((si, "si6"), (si2, "si10"), (imp, "imperial6"))[mode]
+            plist, pname = ((si, "si6"), (si2, "si7"), (imp, "imperial6"))[mode]
             pdesc = pname
             if rng.random() < 0.7:
                 units = {n: rng.choice((-2, -1, 1, 1, 2)) for n in rng.sample(common, rng.randint(1, 3))}
